@@ -23,9 +23,9 @@ BOUNDS = (
     "1,2,3,7,255,256,512,random 1..600}, TSIG on/off (6 HMAC algorithms; key names unrelated, "
     "or under a name that first occurs in a late record set so that it would compress against "
     "removed octets).  Per subject, Message.to_wire(max_size=L, prefer_truncation in "
-    "{False,True}) is run for EVERY L from 512 to len(full)+16 (quick: 8 subjects, thorough: "
+    "{False,True}) is run for EVERY L from 512 to len(full)+16 (quick: 10 subjects, thorough: "
     "150) or for the boundary set {E_k+R-1, E_k+R, E_k+R+1, the same with the padded/compressed "
-    "reserve bounds, 512, len(full)-1..+1} (quick: 44 subjects, thorough: 2 500); plus "
+    "reserve bounds, 512, len(full)-1..+1} (quick: 62 subjects, thorough: 2 500); plus "
     "max_size=0 with request_payload=L at 6 limits, and the clamp 65535 on 1 (quick) / 4 "
     "(thorough) messages larger than 65535 octets.  The low-level dns.renderer.Renderer is "
     "driven with the same record sets at the boundary limits, continuing after TooBig, to "
@@ -731,8 +731,8 @@ def _describe(subj):
 
 def run(R):
     random.seed(R.seed * 104729 + 3)
-    n_full = 8 if R.quick else 150
-    n_bound = 44 if R.quick else 2500
+    n_full = 10 if R.quick else 150
+    n_bound = 62 if R.quick else 2500
     n_huge = 1 if R.quick else 4
     stats = {}
     subjects = 0
